@@ -399,6 +399,9 @@ def concrete_playback(hdir, target_dir, harness, log_path, timeout_s, mem_gb, ex
     if not tests:
         for m in re.finditer(r"```\n(#\[test\].*?)```", text, re.S):
             tests.append(m.group(1))
+    # Kani quotes the failed check's message in a `///` header; a message that spans several source lines (a multi-line
+    # assert! condition) continues WITHOUT the `///` prefix and breaks the generated file: keep the test from `#[test]` on
+    tests = [t[t.index("#[test]"):] if "#[test]" in t else t for t in tests]
     return tests
 
 
